@@ -32,7 +32,7 @@ blocks['seeded'] = '\n'.join(rows)
 rp = f'{V}/tools/mutants/revert-results.json'
 if os.path.exists(rp):
     rows = ['| reverted fix | property | quick check verdict | wall |', '|---|---|---|---|']
-    for r in json.load(open(rp)): rows.append(f"| `{r['commit']}` {esc(r['subject'])} | {r['property']} | {'VIOLATION' if r['violations'] else '**missed**'} | {r['wall_s']} s |")
+    for r in json.load(open(rp)): rows.append(f"| `{r['commit']}` {esc(r['subject'])} | {r['property']} | {'VIOLATION' if r['violations'] else (r.get('note') or '**missed**')} | {r['wall_s']} s |")
     blocks['reverts'] = '\n'.join(rows)
 s = open(f'{V}/DESIGN.md').read()
 for k, v in blocks.items():
